@@ -366,9 +366,16 @@ def gen_resource(rng, cat, small, allow_not):
             "Actions": [{"Type": "forward", "TargetGroupArn": "arn:aws:elasticloadbalancing:eu-west-1:123456789012:targetgroup/t/1"}],
             "Conditions": [{"Field": "path-pattern", "Values": ["/x/*"]}]}}
     if r < 0.94:
-        return {"Type": "Custom::Thing", "Properties": {"ServiceToken": "arn:aws:lambda:eu-west-1:123456789012:function:f",
-                                                        "Action": odd_action_value(rng, cat), "Nested": {"Deep": [{"Action": action_text(rng, cat, small)}, {"NotAction": odd_action_value(rng, cat)}]}}}
-    return {"Type": "AWS::SNS::Topic", "Properties": {"TopicName": "t", "Tags": [{"Key": "Action", "Value": "s3:Get*"}]}}
+        props = {"ServiceToken": "arn:aws:lambda:eu-west-1:123456789012:function:f",
+                 "Action": odd_action_value(rng, cat), "Nested": {"Deep": [{"Action": action_text(rng, cat, small)}, {"NotAction": odd_action_value(rng, cat)}]}}
+        if rng.random() < 0.6:      # explicit nulls are values too: they must survive expand_actions()
+            props["KmsKeyId"] = None
+            props["Overrides"] = rng.choice([{"Retention": None}, {"Retention": None, "Tier": "x"}, {"L": [None, "a"]}])
+        return {"Type": "Custom::Thing", "Properties": props}
+    props = {"TopicName": "t", "Tags": [{"Key": "Action", "Value": "s3:Get*"}]}
+    if rng.random() < 0.5:
+        props["KmsMasterKeyId"] = None
+    return {"Type": "AWS::SNS::Topic", "Properties": props}
 
 
 def gen_template(rng, cat, small=False, allow_not=True, meta_not=True):
